@@ -24,7 +24,9 @@ from ..core.loader import ClassInfo, FuncInfo, ModuleInfo
 
 SCOPE_PREFIXES = ("yastn.tensor", "yastn.initialize", "yastn._split_combine_dict", "yastn._from_dict",
                   "yastn.backend.backend_np", "yastn.krylov", "yastn.sym")
-THOROUGH_EXTRA = ("yastn.tn.mps", "yastn.tn.fpeps", "yastn.operators")
+# consumers in yastn.tn.fpeps.envs are not analysed (see sa/props/c15.py and DESIGN §9.9): cached metadata never leaves the tensor
+# layer except as the immutable struct/slices NamedTuples of result tensors
+THOROUGH_EXTRA = ("yastn.tn.mps", "yastn.tn.fpeps._", "yastn.tn.fpeps.gates", "yastn.operators")
 
 BUILTINS = set(dir(builtins))
 # external callables that are value-pure (result depends on argument values only)
@@ -351,21 +353,37 @@ def rule_K3(chk, eng, cached):
                     f"{fi.short}() writes into {('part `.' + '.'.join(o[2]) + '` of ') if o[2] else ''}the value returned by the "
                     f"memoised {qual.rsplit('.', 1)[-1]}(): {ev.kind}{via}; the next cache hit returns the altered object")
     # K3 (b): a stored value must be re-readable: no one-shot iterator / generator inside a memoised result
+    from ..core.loader import FuncInfo
+
+    def one_shot_elements(g, depth=0, seen=()):
+        """(return stmt, element) of g's return values that may be one-shot iterators; follows calls of repository helpers"""
+        ga = eng.analyses.get(id(g.node))
+        out = []
+        if ga is None or depth > 3 or id(g.node) in seen:
+            return out
+        for r_ in A.returns_of(g.node):
+            if r_.value is None:
+                continue
+            nd = ga.cfg.node_of.get(r_)
+            st_ = dict(ga.instate.get(nd.id, {})) if nd is not None and nd.id in ga.instate else dict(ga.union_state)
+            for e_ in (r_.value.elts if isinstance(r_.value, (ast.Tuple, ast.List)) else [r_.value]):
+                v_ = ga.ev(e_, st_)
+                if "gen" in v_.k and not ({"list", "tuple", "dict", "set", "arr", "imm"} & set(v_.k)):
+                    out.append((r_, e_))
+                elif isinstance(e_, ast.Call) and isinstance(e_.func, ast.Name):
+                    tgt = chk.prog.resolve(g.module, e_.func.id)
+                    if isinstance(tgt, FuncInfo) and one_shot_elements(tgt, depth + 1, seen + (id(g.node),)):
+                        out.append((r_, e_))
+        return out
     for f in cached:
         fa = eng.analyses.get(id(f.node))
         if fa is None:
             continue
+        flagged = one_shot_elements(f)
         for r in A.returns_of(f.node):
             if r.value is None:
                 continue
-            node = fa.cfg.node_of.get(r)
-            st = dict(fa.instate.get(node.id, {})) if node is not None and node.id in fa.instate else dict(fa.union_state)
-            elts = r.value.elts if isinstance(r.value, (ast.Tuple, ast.List)) else [r.value]
-            bad = []
-            for e in elts:
-                v = fa.ev(e, st)
-                if "gen" in v.k and not ({"list", "tuple", "dict", "set", "arr", "imm"} & set(v.k)):
-                    bad.append(e)
+            bad = [e for r_, e in flagged if r_ is r]
             if bad:
                 for e in bad:
                     chk.bad("K3", (f, r), r, f"memoised {f.name}() returns a one-shot iterator/generator in `{A.short(e, 40)}`: "
@@ -518,3 +536,17 @@ def run(chk):
             if meth in ci.methods:
                 chk.bad("K1", ci.methods[meth], f"{cname}.{meth}", f"{cname} overrides {meth}: cache keys are no longer "
                         "compared by value of all fields")
+
+
+MUTANTS = [
+    ("memoised function reads module state", "yastn/tensor/_merging.py",
+     "    s_eff = []\n    s_eff.append(struct.s[axes[0][0]] if len(axes[0]) > 0 else 1)", "    global _LAST_AXES\n    _LAST_AXES = axes\n    s_eff = []\n    s_eff.append(struct.s[axes[0][0]] if len(axes[0]) > 0 else 1)", "K1"),
+    ("resize table pairs a cache with another function", "yastn/tensor/_control_lru.py",
+     "    _contractions._meta_trace = lru_cache(maxsize)(_contractions._meta_trace.__wrapped__)", "    _contractions._meta_trace = lru_cache(maxsize)(_contractions._meta_vdot.__wrapped__)", "K4"),
+    ("clear table forgets a cache", "yastn/tensor/_control_lru.py", "    _merging._meta_unfuse_hard.cache_clear()\n", "", "K4"),
+    ("memoised function returns a generator", "yastn/tensor/_contractions.py", "    negate = tuple(slc.slcs[0] for slc, negate in zip(slices, tp) if negate)\n    if not negate:\n        return negate", "    negate = tuple(slc.slcs[0] for slc, negate in zip(slices, tp) if negate)\n    if not negate:\n        return iter(negate)", "K3"),
+]
+BENIGN = [
+    ("rename local in memoised function", "yastn/tensor/_merging.py", "    s_eff = []\n    s_eff.append(struct.s[axes[0][0]] if len(axes[0]) > 0 else 1)\n    s_eff.append(struct.s[axes[1][0]] if len(axes[1]) > 0 else -1)",
+     "    s_eff = [struct.s[axes[0][0]] if len(axes[0]) > 0 else 1]\n    s_eff.append(struct.s[axes[1][0]] if len(axes[1]) > 0 else -1)"),
+]
